@@ -346,3 +346,69 @@ def batch_item_error(rid):
     if not isinstance(out, list) or len(out) != 1:
         return "batch-output-shape"
     return check(out[0])
+
+
+# ------------------------------------------------------------------ the transports' serialisers as emitters
+def _built(which, what, idsel, psel, strsel):
+    rid = pick_id(idsel)
+    st = pick_str(strsel)
+    fam = _ctor_pairs()[which]
+    params = shape(psel, st)
+    if what == 0:
+        return fam[1](st or "m", params, rid)
+    if what == 1:
+        return fam[2](st or "m", params)
+    if what == 2:
+        return fam[3](rid, params)
+    return fam[4](rid, -32000, st, params)
+
+
+def wire_transports(which, what, idsel, psel, strsel):
+    """what each carrier actually emits for a message built by the library's constructors: the stdio line, and the
+    JSON value posted by the Streamable HTTP and legacy SSE transports"""
+    import json as _json
+    from harness import h_C06, h_C11, h_C12
+    from harness.stdio_fake import make_client, Rec
+
+    m = _built(which, what, idsel, psel, strsel)
+    want = m.model_dump(exclude_none=True)
+    # stdio
+    c = make_client()
+    c._outgoing_recv = h_C06._Outgoing([m])
+    drive(c._stdin_writer())
+    data = b"".join(c.process.stdin.chunks)
+    if data.count(b"\n") != 1 or not data.endswith(b"\n"):
+        return "stdio:not-one-line"
+    d = _json.loads(data[:-1].decode("utf-8"))
+    r = check(d)
+    if r != "ok":
+        return "stdio:" + r
+    if not same_json(d, want):
+        return "stdio:line-differs-from-message"
+    # Streamable HTTP
+    h_C11.W.plan, h_C11.W.posts = [("resp", h_C11.FakeResponse(202, {}, b""))], []
+    t = h_C11.make_transport()
+    drive(t._send_message_internal(m))
+    if len(h_C11.W.posts) != 1:
+        return "http:not-posted-once"
+    r = check(h_C11.W.posts[0]["json"])
+    if r != "ok":
+        return "http:" + r
+    if not same_json(h_C11.W.posts[0]["json"], want):
+        return "http:posted-value-differs-from-message"
+    # legacy SSE
+    h_C12._reset([], "silent")
+    h_C12.W.plan = [{"status": 200, "body": b'{"jsonrpc":"2.0","id":"zz","result":{}}'}]
+    t3 = h_C12._transport()
+    t3._incoming_send = Rec()
+    t3._message_url = "http://srv/messages/"
+    t3._send_client = h_C12.FakeClient()
+    h_C12._drive_top(t3._send_message_via_http(m))
+    if len(h_C12.W.posts) != 1:
+        return "sse:not-posted-once"
+    r = check(h_C12.W.posts[0]["json"])
+    if r != "ok":
+        return "sse:" + r
+    if not same_json(h_C12.W.posts[0]["json"], want):
+        return "sse:posted-value-differs-from-message"
+    return "ok"
